@@ -39,11 +39,12 @@ fn process_dec(token: Token) -> Result<Expression, ParserError> {
             }
         }
         // too big for 32 bits, it is a double
-        Err(_) => token
-            .to_string()
-            .parse::<f64>()
-            .map(Expression::DoubleLiteral)
-            .map_err(|e| e.into()),
+        Err(_) => match token.to_string().parse::<f64>() {
+            // a literal that is too big parses as infinity
+            Ok(f) if f.is_finite() => Ok(Expression::DoubleLiteral(f)),
+            Ok(_) => Err(ParserError::Overflow),
+            Err(e) => Err(e.into()),
+        },
     }
 }
 
